@@ -643,6 +643,21 @@ fn write_evidence(
   let path = dir.join(format!("{}.json", spec.id));
   std::fs::write(&path, serde_json::to_string_pretty(&ev).unwrap())
     .expect("write evidence");
+  // the same document, kept per tier so that a later quick run does not
+  // erase what the last thorough run covered
+  let by_tier = dir.join("by_tier");
+  let _ = std::fs::create_dir_all(&by_tier);
+  let _ = std::fs::write(
+    by_tier.join(format!(
+      "{}.{}.json",
+      spec.id,
+      match tier {
+        Tier::Quick => "quick",
+        Tier::Thorough => "thorough",
+      }
+    )),
+    serde_json::to_string_pretty(&ev).unwrap(),
+  );
 }
 
 /// `dsim replay <file>`: exit 1 + VIOLATION line when the violation
